@@ -153,6 +153,24 @@ CHECKS = {
               "statement)."),
         technique="TLA+ trace specification (self-composition / non-interference) over recorded Assignment event digests",
     ),
+    "C11": dict(
+        category="exploration",
+        text=("The driver calls midnight-curves on BLS12-381 G1, secp256k1, Jubjub (extended, affine and prime-subgroup "
+              "types), Curve25519 and BN254 G1: addition and subtraction in every mix of representations and operator forms "
+              "(by value, by reference, assigning), doubling, negation, equality, summation, scalar multiplication over the "
+              "scalar classes {0, 1, 2, r-1, r-2, 2^128-1, 2^128, random}, batch normalisation with and without the identity, "
+              "conversions, Jacobian accessors and constructors, and the encodings (round trip, affine = projective bytes, "
+              "single-bit corruptions through checked and unchecked decoders), operands from {identity, G, small multiples, "
+              "P = Q, P = -Q}. Every call is logged with arguments and result as affine coordinates (about 5 700 calls); "
+              "CurveLib_Trace recomputes each result with the group law of Curve.tla over BigNat - whose constants are "
+              "checked in-model (G on the curve, r.G = identity, (r-1).G = -G) and against the constants the code reports - "
+              "and checks the encoding laws (decode(encode P) = P; whatever a checked decoder accepts re-encodes to the same "
+              "bytes, is on the curve and in the subgroup where promised, and is accepted by the unchecked decoder)."),
+        design_ref="DESIGN.md 4/C11",
+        note=("Not covered: G2 types (the curve model is over prime fields), points outside the subgroup built with unchecked "
+              "constructors, the byte formats themselves (judged by laws), random operands beyond the fixed menus."),
+        technique="TLA+/TLC: executable Curve model over BigNat re-evaluates every recorded library call (trace validation)",
+    ),
     "C14": dict(
         category="model_checking",
         text=("KzgMultiOpen (construct_intermediate_sets as a function of the query LIST, symbolic acceptance) is "
